@@ -1478,7 +1478,10 @@ SYSTEMATIC_DOC = (
     "event of its call while client 1 runs a complete call; (D) client 0 pre-empted at every "
     "tick of the 40-tick window in which the stale stream of its own earlier abort is "
     "finalised by parser re-use x client 1 pre-empted at every token-action tick of its own "
-    "tokenisation, after which client 0 finishes the finalisation.")
+    "tokenisation, after which client 0 finishes the finalisation; (E) the same two-"
+    "dimensional enumeration for AliasRewriter constructions with library-created default "
+    "instances: client 0 pre-empted at each of the first 80 ticks of its second "
+    "construction x client 1 pre-empted at every token-action tick of its own.")
 
 SYS_PAIRS = [
     # (earlier input that aborts, later input)
@@ -1521,6 +1524,8 @@ def systematic_jobs(seed, tier):
                  for d in range(3) for s in range(16)]
         jobs += [{"family": "D", "pair": (seed + d) % len(SYS_PAIRS), "slice": s, "nslices": 16}
                  for d in range(4) for s in range(16)]
+        jobs += [{"family": "E", "pair": d, "slice": s, "nslices": 16}
+                 for d in range(3) for s in range(16)]
         return jobs
     nsl = 6
     pair = seed % len(SYS_PAIRS_QUICK)
@@ -1528,6 +1533,8 @@ def systematic_jobs(seed, tier):
             for f in ("A", "B", "C") for s in range(nsl)]
     # D is two-dimensional: quick takes every fifth combination (offset by the seed)
     jobs += [{"family": "D", "pair": pair, "slice": (seed + 5 * s) % 30, "nslices": 30,
+              "quick": True} for s in range(nsl)]
+    jobs += [{"family": "E", "pair": seed % 3, "slice": (seed + 5 * s) % 30, "nslices": 30,
               "quick": True} for s in range(nsl)]
     return jobs
 
@@ -1584,6 +1591,29 @@ def systematic_plans(seed, spec):
             yield (label, {
                 "property": "C20", "seed": seed, "run": label,
                 "granularity": "line", "n_lexers": 2, "n_parsers": 2, "start": 0,
+                "clients": [{"ops": [dict(o0), dict(o1)]}, {"ops": [dict(b0)]}],
+                "points": [{"op": "c0o1", "at": k, "kind": "preempt", "to": 1, "ord": 0},
+                           {"op": "c1o0", "at": a, "kind": "preempt", "to": 0, "ord": 1}]})
+    elif fam == "E":
+        # library-created (default) instances: after one completed AliasRewriter(aliases),
+        # client 0 builds another one and is pre-empted at every tick of the first 80 of
+        # that construction; client 1 builds its own and is pre-empted at every token-action
+        # tick; client 0 finishes; client 1 continues
+        al = [[["n", "name"], ["who", "author/name"]], [["x", "xyz/abc"], ["ttl", "title"]],
+              [["a", "a/b/c"], ["r", "rating"]]]
+        A, A2, B = al[pi % 3], al[(pi + 1) % 3], al[(pi + 2) % 3]
+        o0 = {"id": "c0o0", "kind": "rewriter_default", "aliases": A, "text": "n eq 'x'", "linger": False}
+        o1 = {"id": "c0o1", "kind": "rewriter_default", "aliases": A2, "text": "x eq 1", "linger": False}
+        b0 = {"id": "c1o0", "kind": "rewriter_default", "aliases": B, "text": "a eq 2", "linger": False}
+        _, ib = dry.get(b0, False)
+        acts = ib["action"]
+        combos = [(k, a) for k in range(1, 81) for a in acts]
+        for idx in range(spec["slice"], len(combos), spec["nslices"]):
+            k, a = combos[idx]
+            label = "sysE-p%d-k%d-a%d" % (pi, k, a)
+            yield (label, {
+                "property": "C20", "seed": seed, "run": label,
+                "granularity": "line", "n_lexers": 1, "n_parsers": 1, "start": 0,
                 "clients": [{"ops": [dict(o0), dict(o1)]}, {"ops": [dict(b0)]}],
                 "points": [{"op": "c0o1", "at": k, "kind": "preempt", "to": 1, "ord": 0},
                            {"op": "c1o0", "at": a, "kind": "preempt", "to": 0, "ord": 1}]})
